@@ -35,10 +35,15 @@ class Flow:
             env[p['var']] = val      # block() replaces this by 'unknown' when the variable is assigned again
             return True
         if p['k'] == 'Wild': return True
-        if p['k'] == 'Leaf' and 'adt' not in p and val[0] == 'tuple':
+        if p['k'] == 'Leaf' and 'adt' not in p:
             for s in p['subs']:
-                if s['field'] < len(val[1]): self.bind(s['pat'], val[1][s['field']], env)
+                if val[0] == 'tuple' and s['field'] < len(val[1]): self.bind(s['pat'], val[1][s['field']], env)
+                else: self.bind(s['pat'], ('proj', val, s['field']), env)
             return True
+        if p['k'] == 'Variant' and canon(p.get('adt', '')) == 'std::option::Option' and p['variant'] == 'Some' and p['subs']:
+            # the payload of a Some: the same value `.unwrap()` yields
+            return self.bind(p['subs'][0]['pat'], val[1] if val[0] == 'some' else ('some_payload', val), env)
+        if p['k'] == 'Variant' and canon(p.get('adt', '')) == 'std::option::Option' and p['variant'] == 'None': return True
         return False
     def block(self, b, env, depth):
         env = dict(env)
@@ -75,6 +80,8 @@ class Flow:
     def call_named(self, name, decl, args, depth):
         if decl in TRANSPARENT_DECL or name in TRANSPARENT_NAME:
             return args[0] if args else ('unknown', 'no argument')
+        if name in ('std::option::Option::unwrap', 'std::option::Option::expect', 'std::option::Option::unwrap_unchecked') and args:
+            return ('some_payload', args[0])
         t = self.thir(name)
         if t is not None and depth < self.max_depth and '{closure' not in name and len(t['params']) == len(args):
             env2 = {}
@@ -163,6 +170,7 @@ def show(t):
     if t[0] == 'call': return '%s(%s)' % (t[1].split('::')[-1], ', '.join(show(x) for x in t[2]))
     if t[0] == 'optmap': return '%s.map(%s => %s)' % (show(t[1]), show(t[2]), show(t[3]))
     if t[0] == 'some': return 'Some(%s)' % show(t[1])
+    if t[0] == 'some_payload': return '%s.unwrap()' % show(t[1])
     if t[0] == 'none': return 'None'
     if t[0] == 'lit': return repr(t[1])
     return '%s(%s)' % (t[0], ', '.join(show(x) for x in t[1:]))
@@ -203,6 +211,7 @@ def scan(fl, e, env, pred, out):
             scan(fl, c['expr'], env, pred, out)
             src = fl.ev(c['expr'], env)
             for x in walk_pat_vars(c['pat']): env_then[x] = ('payload', src, x.split('#')[0])
+            fl.bind(c['pat'], src, env_then)
             ct = ('matches', src)
         else:
             scan(fl, c, env, pred, out)
@@ -214,9 +223,11 @@ def scan(fl, e, env, pred, out):
         return
     if k == 'Match':
         scan(fl, e['scrutinee'], env, pred, out)
+        sv = fl.ev(e['scrutinee'], env) if 'TryDesugar' not in str(e.get('source')) and e.get('source') != 'ForLoopDesugar' else None
         for a in e['arms']:
             env2 = dict(env)
             for x in walk_pat_vars(a['pat']): env2[x] = ('payload', ('unknown', 'match'), x.split('#')[0])
+            if sv is not None: fl.bind(a['pat'], sv, env2)
             if a.get('guard') is not None: scan(fl, a['guard'], env2, pred, out)
             scan(fl, a['body'], env2, pred, out)
         return
